@@ -145,8 +145,11 @@ P('C06', claimed=True, level='other',
               'alone (None and [] -> 0, bool -> int, message list -> datagram of a recursive _build_msg, bundle '
               'list -> datagram of a recursive _build_bundle, array markers, other lists refused, everything else '
               'unchanged), every nested bundle is checked against its parent\'s time BEFORE it is encoded, the '
-              'same send time goes into every recursive call, and the result is build(). Conformance to OSC 1.0, '
-              'round trips, the sizing theorem (prediction >= real size) and clumping are decided by a '
+              'same send time goes into every recursive call, and the result is build(). NetAddr._clump_bundle '
+              '(loop invariant, any number of elements): every element goes into exactly one clump, in order; a '
+              'clump is closed iff the next element would take it to the limit, so an open clump stays below the '
+              'limit or holds the single element that fits nowhere. Conformance to OSC 1.0, '
+              'round trips, the sizing theorem (prediction >= real size) and clumping end-to-end are decided by a '
               'bounded run-time contract against an independent OSC 1.0 codec (all argument lists of '
               'length <= 3 over a 30-value alphabet, nested to depth 4, sizes straddling 65504).'),
   level_note=('Byte contents are abstract in the proofs (length and contains-NUL only); content round '
@@ -336,7 +339,11 @@ P('C17', claimed=True, level='other', contracts=['base_netaddr_bind', 'synth_nod
               'move_to_head/move_to_tail, AbstractGroup._move_node_to_head/_tail/free_all/deep_free/dump_tree; the '
               'sending constructors AbstractGroup.__init__ and Synth.__init__ take ONE fresh id from the target\'s '
               'server, join the right group (target for head/tail, the target\'s group otherwise) and send one '
-              'creation command in the reference order (creation_cmd | /s_new name, id, add action, target id, args). '
+              'creation command in the reference order (creation_cmd | /s_new name, id, add action, target id, args); '
+              'Buffer.free returns the number to the allocator once, evaluates the completion with the still-valid '
+              'buffer, sends one /b_free number completion and wipes the object - a second free does nothing; '
+              'Server._free_all_buffers puts one /b_free per number of EVERY allocated block (nested loop invariants, '
+              'any number of blocks of any size) into one bundle and returns every block. '
               'Bounded: every message emitted at the single OSC choke point during histories of client-object '
               'operations is checked against grammars written from the Server Command Reference, for '
               'ownership of the ids it mentions, creation/free pairing and bind() atomicity.'),
